@@ -288,7 +288,7 @@ PLAN['C12'] = {
     'cex': ['context_rewrites', 'tree_clauses'],
     'explanation': 'sem(ops, n, env) mirrors Context::eval; every constructor carries requires wf(arena) and ensures grown(old, new, r) plus the meaning equation; callers (add -> mul -> square/op_binary_commutative, sub -> neg, less_than -> max, if_nonzero_else -> and/or/not) see only callee contracts.',
     'assumptions': ['IndexMap::insert contract (stub): returns an index holding the value, existing entries unchanged; deduplication not claimed',
-                    'Context::eval computes sem (not under contract; the bounded contracts flatten/context_rewrites compare Context::eval with direct f32 evaluation)',
+                    'Context::eval computes sem: proved in unit context (Context::eval / eval_inner on their real text: memo cache, recursion on the topological order of the arena, errors exactly for a bad node or a missing variable; std HashMap through the model of vstd, obeys_key_model::<Var>() assumed)',
                     'float identities of ax_ctx: each proved for all f32 by the Kani harness ctxax::c12__ctxax_*'],
 }
 del NOT_APPLICABLE['C12']
